@@ -534,6 +534,10 @@ func (reg *Reg) blobPutUploadChunked(ctx context.Context, r ref.Ref, d descripto
 					slog.Int64("chunkStart", chunkStart),
 					slog.Int("chunkSize", chunkSize),
 					slog.String("range", resp.HTTPResponse().Header.Get("Range")))
+				if retryCur > retryLimit {
+					// a server that keeps rejecting the chunk must not keep the upload looping forever
+					return d, fmt.Errorf("failed to send blob (chunk), ref %s: http status: %w", r.CommonName(), reghttp.HTTPError(resp.HTTPResponse().StatusCode))
+				}
 			} else if resp.HTTPResponse().StatusCode != 202 {
 				retryCur++
 				statusResp, statusErr := reg.blobUploadStatus(ctx, r, &chunkURL)
